@@ -224,6 +224,7 @@ pub fn step<Q: QueueLike>(q: &mut Q, op: &Op, m: &mut Model, unordered: &mut boo
             let hi = matches!(op, Op::PopHi);
             let name = if !Q::DOUBLE { "pop" } else if hi { "pop_max" } else { "pop_min" };
             let pk = peek_key(q, hi);
+            mark_cmp();
             let r = if hi { q.q_pop_hi() } else { q.q_pop_lo() }.map(|(i, p)| pair_of(&i, &p));
             match r {
                 None => {
@@ -253,6 +254,7 @@ pub fn step<Q: QueueLike>(q: &mut Q, op: &Op, m: &mut Model, unordered: &mut boo
         Op::PopIf { hi, ret, write } => {
             let name = if !Q::DOUBLE { "pop_if" } else if *hi { "pop_max_if" } else { "pop_min_if" };
             let pk = peek_key(q, *hi);
+            mark_cmp();
             let mut calls = 0;
             let mut seen: Option<Pair> = None;
             let f = |i: &mut Item, p: &mut Prio| {
@@ -425,7 +427,9 @@ pub fn step<Q: QueueLike>(q: &mut Q, op: &Op, m: &mut Model, unordered: &mut boo
             }
             let olen = o.q_len();
             let slen = m.len();
+            mark_cmp();
             q.q_append(&mut o);
+            let append_cmps = cmps_since_mark();
             let os = o.snap();
             if o.q_len() != 0 || !o.q_is_empty() || os.map_len != 0 || !os.heap.is_empty() || !os.qp.is_empty() || os.size != 0 {
                 bail!("append left the other queue non-empty: {os:?}");
@@ -460,9 +464,8 @@ pub fn step<Q: QueueLike>(q: &mut Q, op: &Op, m: &mut Model, unordered: &mut boo
                     }
                 }
             }
-            if slen > 1 || olen > 1 {
-                // append is documented to give a correctly ordered queue
-            }
+            // observation calls above compare nothing, but keep the count of the call itself
+            let _ = append_cmps;
             Ok(Ret::Unit)
         }
         Op::Clear => {
